@@ -17,6 +17,7 @@ import (
 
 	"k8s.io/apimachinery/pkg/apis/meta/v1/unstructured"
 	"k8s.io/apimachinery/pkg/runtime"
+	"k8s.io/apimachinery/pkg/runtime/schema"
 
 	"github.com/crossplane/crossplane/verifh/kit"
 	"github.com/crossplane/crossplane/verifh/sim"
@@ -561,6 +562,40 @@ func runCase(c *kit.Ctx, i int, name string) {
 	_, _, _ = ce.Reconcile("ns1", "c1")
 	_, _, _ = ce.Reconcile("ns1", "c1")
 	k.check("metadata-only-re-sync", claimIn3, xrBefore3, findXR(), w.GetObj(ckey))
+
+	// a fourth sync through a STALE XR cache: the XR controller has just added a composed resource
+	// reference and changed the XR's own connection secret reference; the claim controller's cache
+	// still holds the XR as it was before, and the user has edited the claim. Whatever the sync does
+	// with the claim's edit, what the XR side owns stays as the XR controller wrote it.
+	{
+		frozen := w.RV()
+		xrS := &unstructured.Unstructured{Object: findXR()}
+		refs, _, _ := unstructured.NestedSlice(xrS.Object, "spec", "resourceRefs")
+		refs = append(refs, map[string]any{"apiVersion": "nop.ex.org/v1", "kind": "NopA", "name": fmt.Sprintf("added-later-%d", i%5)})
+		_ = unstructured.SetNestedSlice(xrS.Object, refs, "spec", "resourceRefs")
+		_ = unstructured.SetNestedMap(xrS.Object, map[string]any{"name": "xr-secret-renamed", "namespace": "crossplane-system"}, "spec", "writeConnectionSecretToRef")
+		if err := w.Client("xrctl").Update(context.Background(), xrS); err != nil {
+			panic(err)
+		}
+		want := specOf(findXR())
+		cmS := &unstructured.Unstructured{Object: w.GetObj(ckey)}
+		for f := range t.Edit {
+			_ = unstructured.SetNestedField(cmS.Object, fmt.Sprintf("edited-again-%d", i%3), "spec", f)
+		}
+		_ = u.Update(context.Background(), cmS)
+		xgk := schema.GroupKind{Group: "ex.org", Kind: "XThing"}
+		lc := w.LaggingClient("claim", func(gk schema.GroupKind) (int64, bool) { return -frozen, gk == xgk })
+		stale := xrk.NewClaimEnvWithClient(w, xrdName, t.SSA, lc)
+		_, _, _ = stale.Reconcile("ns1", "c1")
+		_, _, _ = stale.Reconcile("ns1", "c1")
+		got := specOf(findXR())
+		for _, f := range []string{"resourceRefs", "writeConnectionSecretToRef"} {
+			if !reflect.DeepEqual(got[f], want[f]) {
+				k.fail("xr-owned-field-not-preserved:"+f+":stale-xr-cache", fmt.Sprintf("sync through an XR cache that lags one XR-controller write: spec.%s was %v and is now %v", f, kit.JSON(want[f]), kit.JSON(got[f])))
+			}
+		}
+		c.Count("stale_xr_cache_syncs", 1)
+	}
 
 	nestedUser, machinery := 0, 0
 	for f, v := range specOf(t.Claim) {
